@@ -31,7 +31,7 @@ COMPLEX = [
     ("max(len({f} or ''), 3)", None), ("[{f}, {g}][0]", "[{f}, {g}][0]"), ("{{'k': {f}, 'z': [1, 2]}}['k']", None), ("'x,y'", "'x,y'"),
     ('"a, (b"', '"a, (b"'), ("({f}, {g})", None), ("'{{}},{{}}'.format({f}, NR)", None), ("str({f})[1:]", None), ("[{f}, ({g}, 'q]')]", None),
     ("len([{f}, {g}, NR])", "[{f}, {g}, NR].length"), ("({f} or '') + ', as z'", "({f} || '') + ', as z'"), ("NR + 1", "NR + 1"), ("-NR", "-NR"),
-    ("({f} or 'x').upper()", None), ("[1, 2, 3]", "[1, 2, 3]"), ("None", "null"), ("{f} if NR % 2 else {g}", None), ("(lambda t, u: t)({f}, 1)", None),
+    ("({f} or 'x').upper()", None), ("{f} or 'n/a'", "{f} || 'n/a'"), ("not {f}", "!{f}"), ("{f} and {g}", "{f} && {g}"), ("lambda: {f}", None), ("{f} == {g} or NR > 1", "{f} == {g} || NR > 1"), ("[1, 2, 3]", "[1, 2, 3]"), ("None", "null"), ("{f} if NR % 2 else {g}", None), ("(lambda t, u: t)({f}, 1)", None),
 ]
 
 
@@ -86,7 +86,12 @@ def st_header_case(draw):
             kinds_used.add('named' if it['e'].get('name') else 'expr')
         if it['k'] in ('expr', 'unnest') and draw(st.integers(0, 3)) == 0:
             it['alias'] = draw(st.sampled_from(qgen.ALIAS_POOL + ['As', 'a1', 'NR_']))
-            it['as_kw'] = draw(st.sampled_from(['AS', 'as']))
+            it['as_kw'] = draw(st.sampled_from(['AS', 'as', 'As', 'aS']))
+            if draw(st.integers(0, 2)) == 0:
+                # any amount of blank space around the keyword and after the alias
+                it['as_lead'] = draw(st.sampled_from([' ', '  ', '   ']))
+                it['as_sp'] = draw(st.sampled_from([' ', '  ', '    ']))
+                it['as_trail'] = draw(st.sampled_from(['', ' ', '  ']))
             kinds_used.add('alias')
         items.append(it)
     q = {'type': 'select', 'items': items, 'join': join}
